@@ -64,8 +64,41 @@ def cmp_fn(ctx, construct, rel, qual, spec_src, opts=None, holes=None, name=None
                 if g2 == e2 or equiv_mod_ite(g2, e2):
                     ctx.notes.setdefault('accepted after unrolling small loops', []).append(construct)
                     return ctx.ok(construct, where=where)
+        if got != exp and 'inline' not in kw and 'call_hook' not in kw:
+            # one-line helpers of the module (def f(x): return e / f = lambda x: e) written out at their call sites, on both sides
+            inl = _one_liners(ctx, rel)
+            if inl:
+                try:
+                    g3 = ctx.fn_term(rel, qual, opts=opts, inline=inl, **kw)
+                    e3 = ctx.spec_term(spec_src, opts=opts, name=name, inline=inl, **kw)
+                except (T.Unsupported, RecursionError):
+                    g3 = e3 = None
+                if g3 is not None and (g3 == e3 or equiv_mod_ite(g3, e3)):
+                    ctx.notes.setdefault('accepted after inlining one-line helpers on both sides', []).append(construct)
+                    return ctx.ok(construct, where=where)
         return ctx.same_term(construct, got, exp, where=where)
     return ctx.guard(construct, go, where=where)
+
+
+def _one_liners(ctx, rel):
+    """module-level functions of `rel` whose body is a single return expression (or lambdas bound to a name)"""
+    import ast
+    out = {}
+    m = ctx.repo.module(rel)
+    for n in m.tree.body:
+        if isinstance(n, ast.FunctionDef) and not n.decorator_list and not n.args.vararg and not n.args.kwarg:
+            b = [x for x in n.body if not (isinstance(x, ast.Expr) and isinstance(x.value, ast.Constant))]
+            if len(b) == 1 and isinstance(b[0], ast.Return) and b[0].value is not None \
+                    and not any(isinstance(w, ast.Call) and isinstance(w.func, ast.Name) and w.func.id == n.name for w in ast.walk(n)):
+                out[n.name] = n
+        elif isinstance(n, ast.Assign) and len(n.targets) == 1 and isinstance(n.targets[0], ast.Name) and isinstance(n.value, ast.Lambda) \
+                and not n.value.args.vararg and not n.value.args.kwarg:
+            f = ast.FunctionDef(name=n.targets[0].id, args=n.value.args, body=[ast.Return(value=n.value.body)], decorator_list=[],
+                                returns=None, type_comment=None, type_params=[])
+            ast.copy_location(f, n)
+            ast.fix_missing_locations(f)
+            out[n.targets[0].id] = f
+    return out
 
 
 def _inline_new_helpers(ctx, rel, qual, got, exp, opts, kw):
